@@ -22,6 +22,12 @@ def run(ctx):
     sworld.run_static(
         ctx, "C02", 1, variants=[{"impl": "diff", "cores": 2, "max": (45, 600)}],
         sections=sections, rule="", max_cases=ctx.pick(500, None), finish=False)
+    # mixed geometry and references from two namespaces (scenario 4)
+    sworld.run_static(
+        ctx, "C02", 4, variants=[{"impl": "diff", "cores": 2, "max": (20, 400)}],
+        # Traverse is left out here: on mixed paths the two worlds differ in more ways than the recorded findings name
+        # (segments that end at a raw location, relation members as stops); C30 owns traversal
+        sections=[x for x in sections if x != "traverse"], rule="", max_cases=ctx.pick(300, None), finish=False)
     # OSM-shaped inputs (OSMMap.tla): way ids and relation ids collide, members are missing, ways are closed / open
     binary = ctx.go_build("vh-world")
     run = ctx.tlc("MCOSMMap", "MCOSMMap.cfg", timeout=1500, workers=4)
